@@ -165,6 +165,11 @@ def _case(draw, tier):
         if prob(draw, 0.5):
             c["loop"]["nested"] = True
             c["loop"]["k"] = draw(st.integers(1, 3))
+        elif c["loop"]["form"] in ("while", "dowhile", "signal") and prob(draw, 0.5):
+            # a DAG stage in front of the loop (mk_limit -> limit) carries the configured entry point: the loop is downstream of
+            # it, in scope, and still needs its own seed
+            c["loop"]["limit_input"] = True
+            c["entry_upstream"] = True
     else:
         topo = draw(gen.g1_nodes(3, 7))
         prod = ref.producers(topo)
@@ -350,6 +355,12 @@ def check_case(case, ev):
         TYPED.update({f"t{j}": ("t", j, L["start"]) for j in range(4)})
         TYPED.update({"messages": (), "query": ("q", 0), "response": ("r", 0), "tot": ()})
         gspec = loop_graph_spec(case["loop"])
+        if case.get("entry_upstream") and not case["loop"].get("nested"):
+            L_ = case["loop"]
+            gspec = {"nodes": gspec["nodes"] + [{"k": "func", "name": "mk_limit", "params": ["x"], "defaults": {}, "outs": ["limit"], "expr": f"x + {L_.get('limit_off', 0)}"}],
+                     "entry": ["mk_limit"]}
+            case = {**case, "entry": None, "select": None}
+            labels.add("entry_point_on_a_stage_in_front_of_the_loop")
         if case["loop"].get("nested"):
             labels.add("nested_loop")
             # F11 applies when the wrapped loop offers several entry points with different parameter sets
@@ -430,6 +441,11 @@ def check_case(case, ev):
     if kind in ("nested",) or (kind == "loop" and case["loop"].get("nested")):
         nfeat += 1
     sp = g.inputs
+    if case.get("entry_upstream") and kind == "loop" and not case["loop"].get("nested"):
+        # the loop is downstream of the configured entry point: its cycle is in scope and must still be enterable
+        if not sp.entrypoints:
+            raise Violation("c08.cycle_seed_not_required", f"with_entrypoint('mk_limit') on the stage in front of the loop: the cycle lies downstream of it but the spec lists no way to seed it "
+                            f"(required={sp.required} optional={sp.optional} entrypoints={sp.entrypoints}); a run without a seed would be accepted and the loop would never start")
     # ---- (c) disjointness
     req, opt = set(sp.required), set(sp.optional)
     epp = {p for ps in sp.entrypoints.values() for p in ps}
